@@ -37,7 +37,7 @@ ASSUMPTIONS = [
     'policy observation wraps serialization.import_symbol and records the supplied policy object',
 ]
 BUDGET = {'quick': 16 * 500, 'thorough': 16 * 12000}
-FLOORS = {'round_trip_ok': 0.5, 'bytes_backslash': 0.05, 'policy_doc': 0.08, 'sharing': 0.3}
+FLOORS = {'round_trip_ok': 0.402, 'bytes_backslash': 0.034, 'policy_doc': 0.07, 'sharing': 0.214}
 
 serialization.register_constant('harness.vuni.things', 'CONST_OBJ', compare_by_identity=True)
 serialization.register_dict_based_object(things.DictObj)
